@@ -168,7 +168,7 @@ Definition set_schema (s : ost) (fver : option string) (sch : option schema) (re
               | Some _ => drop_parsed (with_custom s1 None)
               | None => s1
               end, COk)
-           else if negb (str_in v gen_builtin_versions) then (s1, CErr)
+           else if negb (str_in v gen_builtin_versions) then (s, CErr)   (* rejected before it is selected (/repo 7964400) *)
            else match o_custom s1 with
                 | Some _ => (drop_parsed (with_custom s1 None), COk)
                 | None => if same_builtin_version prev v then (s1, COk) else (with_init s1 false, COk)
